@@ -43,7 +43,7 @@ var fuzzFileTargets = []string{"Simple", "Nested", "MapShapes", "Registered", "O
 func FuzzFile(f *testing.F) {
 	addCorpus(f, "file")
 	f.Fuzz(func(t *testing.T, data []byte) {
-		if lay, err := ref.ParseFile(data); err == nil || lay.Meta != nil {
+		if lay, err := ref.ParseHeader(data); err == nil || lay.Meta != nil {
 			if sj, ok := lay.Meta["avro.schema"]; ok {
 				if s, err := ref.ParseSchema(sj); err == nil && (amplifies(s) || minWidth(s) == 0) {
 					t.Skip()
